@@ -8,9 +8,10 @@ for every Multiline / Indent / EmitASCII setting.  None of the three exists at t
 the whitespace between tokens, EmitASCII the escaping inside string literals.  The tree-level theorem composes with
 the lexical round trips proved elsewhere — string literals in both ASCII modes: engine textstr (C25); number and
 literal tokens, float formatting: the hypothesis `TLaws` (never an axiom), validated by the harness (all 2^32
-float32 patterns in the thorough tier); they are NOT reproved here.
+float32 patterns in the thorough tier: since /repo e864d0a, the repair of DESIGN finding 15, `Token.Float32`
+parses at float32 precision and the float32 law holds for EVERY bit pattern); they are NOT reproved here.
 
-PROVED (`…_partial`): for ALL schemas, messages and limits in the fragment `RepMsgTM ok32`:
+PROVED (`…_partial`): for ALL schemas, messages and limits in the fragment `RepMsgTM allF32` (every float32 value):
   singular scalars of every kind (bool literals, integers, enums by name or by number, strings — valid UTF-8 only
   where the field enforces it —, bytes, float/double bit for bit incl. nan, inf and -inf with all NaNs one value),
   presence disciplines, repeated fields printed as repeated `name: value` and re-appended, nested messages and
@@ -23,45 +24,63 @@ PROVED (`…_partial`): for ALL schemas, messages and limits in the fragment `Re
 
 OUTSIDE the fragment (covered by the implementation-level check of the harness only):
   * expanded google.protobuf.Any, MessageSets, EmitUnknown, required-field checking (AllowPartial);
-  * float32 values for which the lexical law fails in the code as it is: 0x15AE43FD and 0x95AE43FD (DESIGN
-    finding 15) — `ok32Current`; after fixes/prototext-float32-parse.diff the law holds for every value and the
-    theorem applies with `ok32 := fun _ => true`;
   * messages nested deeper than the decoder's RecursionLimit (Marshal has no limit).
 -/
 namespace C24
 open JT Pb
 
-/-- **every scalar kind and value** (text): `unmarshalScalar (marshalSingular v) = v`, floats bit for bit with all NaNs one
-value; `ok32` = the float32 values for which the lexical law is claimed -/
-theorem scalar_roundtrip (C : TCodec) (ok32 : Nat → Bool) (L : TLaws C ok32) (fx : FieldX) (v : Val)
-    (hw : wfScalarT ok32 fx v = true) (hen : namesDistinct fx.enums) (hnd : namesNoDash fx.enums) :
+/-- the float32 law is claimed for every bit pattern (the lemma files are parametric in the set of float32 values
+for which `Token.Float32 (appendFloat v) = v` is assumed; since /repo e864d0a that is all of them) -/
+abbrev allF32 : Nat → Bool := fun _ => true
+
+/-- **every scalar kind and value** (text): `unmarshalScalar (marshalSingular v) = v`, floats bit for bit with all NaNs
+one value -/
+theorem scalar_roundtrip (C : TCodec) (L : TLaws C allF32) (fx : FieldX) (v : Val)
+    (hw : wfScalarT allF32 fx v = true) (hen : namesDistinct fx.enums) (hnd : namesNoDash fx.enums) :
     ∃ t, tScalar C fx v = .ok t ∧ tdTok C fx t = .ok (normScalar fx v) :=
-  tdTok_tScalar C ok32 L fx v hw hen hnd
+  tdTok_tScalar C allF32 L fx v hw hen hnd
 
-/-- the float32 values for which `Token.Float32 (appendFloat v) = v` holds in the code as it is: all but the two
-double-rounding values of DESIGN finding 15 (measured exhaustively by the harness, thorough tier) -/
-def ok32Current (b : Nat) : Bool := b != 0x15AE43FD && b != 0x95AE43FD
-
-example : wfScalarT ok32Current { f := { num := 1, kind := .float, card := .optional }, jsonNames := [], textNames := [] }
-    (.num 0x3f800000) = true := by decide
-
-/-- the two values are outside the proved fragment of the code as it is -/
-example : wfScalarT ok32Current { f := { num := 1, kind := .float, card := .optional }, jsonNames := [], textNames := [] }
-    (.num 0x15AE43FD) = false := by decide
+/-- every float32 bit pattern is inside the fragment — the two values of the former finding 15 included -/
+example : wfScalarT allF32 { f := { num := 1, kind := .float, card := .optional }, jsonNames := [], textNames := [] }
+    (.num 0x15AE43FD) = true := by decide
 
 /-- **`fromText_toText_partial`**: for every schema (hypotheses `SchemaT`), every decoder option record, every limit
 and every message of the fragment: `Unmarshal(Marshal(m))` succeeds and yields `m` without unknown fields, floats
-bit for bit (NaNs as one value) -/
-theorem fromText_toText_partial (C : TCodec) (ok32 : Nat → Bool) (L : TLaws C ok32) (D : DOpts) (X : SchemaX)
-    (hS : SchemaT X) (mi : Nat) (limit : Int) (m : Msg) (hrep : RepMsgTM ok32 X mi limit m) :
+bit for bit (NaNs as one value), every float32 value included -/
+theorem fromText_toText_partial (C : TCodec) (L : TLaws C allF32) (D : DOpts) (X : SchemaX)
+    (hS : SchemaT X) (mi : Nat) (limit : Int) (m : Msg) (hrep : RepMsgTM allF32 X mi limit m) :
     ∃ tfs, toText C X mi m = .ok tfs ∧ fromText C D X mi limit tfs = .ok (normMsg X mi m) :=
-  rtTM_msg C D X ok32 hS L m mi limit hrep
+  rtTM_msg C D X allF32 hS L m mi limit hrep
 
-/-- the same after fixes/prototext-float32-parse.diff: every float32 bit pattern -/
-theorem fromText_toText_fixed (C : TCodec) (L : TLaws C (fun _ => true)) (D : DOpts) (X : SchemaX)
-    (hS : SchemaT X) (mi : Nat) (limit : Int) (m : Msg) (hrep : RepMsgTM (fun _ => true) X mi limit m) :
-    ∃ tfs, toText C X mi m = .ok tfs ∧ fromText C D X mi limit tfs = .ok (normMsg X mi m) :=
-  rtTM_msg C D X _ hS L m mi limit hrep
+/-! ### HISTORICAL regression example (code before /repo e864d0a; DESIGN finding 15, now fixed)
+
+`Token.Float32` parsed the literal with `strconv.ParseFloat(s, 64)` and narrowed, which rounds twice: of all
+2^32 patterns exactly 0x15AE43FD and 0x95AE43FD (`±7.038531e-26`) came back one ulp off.  The theorems then
+excluded these two values (`old_ok32`).  Nothing here is about the current code; the harness replays the two
+values on every run, sweeps all 2^32 in the thorough tier, and reports a regression under the signature
+`prototext-float32-double-rounding`. -/
+namespace Old
+
+/-- the float32 values for which the law held before the repair -/
+def old_ok32 (b : Nat) : Bool := b != 0x15AE43FD && b != 0x95AE43FD
+
+/-- the two values were outside the fragment the old theorem covered … -/
+theorem old_excluded : wfScalarT old_ok32 { f := { num := 1, kind := .float, card := .optional }, jsonNames := [], textNames := [] }
+    (.num 0x15AE43FD) = false ∧
+    wfScalarT old_ok32 { f := { num := 1, kind := .float, card := .optional }, jsonNames := [], textNames := [] }
+    (.num 0x95AE43FD) = false := by decide
+
+/-- … and the old fragment is inside the present one: nothing that was covered is lost -/
+theorem old_fragment_covered (fx : FieldX) (v : Val) (h : wfScalarT old_ok32 fx v = true) :
+    wfScalarT allF32 fx v = true := by
+  cases v with
+  | msg m => simp [wfScalarT] at h
+  | bytes b => simpa [wfScalarT] using h
+  | num n =>
+    unfold wfScalarT at h ⊢
+    cases hk : fx.f.kind <;> simp only [hk] at h ⊢ <;> simp_all
+
+end Old
 
 /-- the hypotheses are satisfiable by a non-trivial message: `{1: 1.0f, 3: [7, 7]}` -/
 def exSchema : SchemaX :=
@@ -79,11 +98,11 @@ theorem oneofExcl_of_none (d : MsgX) (fs : Fields) (h : ∀ fx ∈ d.fields, fx.
   rw [this] at h5
   cases h5
 
-example : RepMsgTM ok32Current exSchema 0 100 exMsg := by
+example : RepMsgTM allF32 exSchema 0 100 exMsg := by
   have e0 : OneofExcl (exSchema.msg 0) (.cons 1 (.one (.num 0x3f800000)) (.cons 3 (.many (.cons (.num 7) (.cons (.num 7) .nil))) .nil)) :=
     oneofExcl_of_none _ _ (by decide)
-  have v1 : wfScalarT ok32Current { f := { num := 1, kind := .float, card := .optional }, jsonNames := [ascii ['a']], textNames := [ascii ['a']], presence := true } (.num 0x3f800000) = true := by decide
-  have v7 : wfScalarT ok32Current { f := { num := 3, kind := .uint32, card := .repeated }, jsonNames := [ascii ['r']], textNames := [ascii ['r']] } (.num 7) = true := by decide
+  have v1 : wfScalarT allF32 { f := { num := 1, kind := .float, card := .optional }, jsonNames := [ascii ['a']], textNames := [ascii ['a']], presence := true } (.num 0x3f800000) = true := by decide
+  have v7 : wfScalarT allF32 { f := { num := 3, kind := .uint32, card := .repeated }, jsonNames := [ascii ['r']], textNames := [ascii ['r']] } (.num 7) = true := by decide
   exact ⟨by decide, rfl, rfl, e0, by decide, ⟨by decide, by decide, v1, by decide⟩, by decide,
     ⟨rfl, Or.inl ⟨rfl, v7, v7, trivial⟩⟩, trivial⟩
 
@@ -100,11 +119,11 @@ def exSchemaM : SchemaX :=
 def exMsgM : Msg :=
   .mk (.cons 5 (.many (.cons (.msg (.mk (.cons 1 (.one (.num 3)) (.cons 2 (.one (.bytes (ascii ['x']))) .nil)) [])) .nil)) .nil) []
 
-example : RepMsgTM ok32Current exSchemaM 0 100 exMsgM := by
+example : RepMsgTM allF32 exSchemaM 0 100 exMsgM := by
   have e0 : OneofExcl (exSchemaM.msg 0) (.cons 5 (.many (.cons (.msg (.mk (.cons 1 (.one (.num 3)) (.cons 2 (.one (.bytes (ascii ['x']))) .nil)) [])) .nil)) .nil) :=
     oneofExcl_of_none _ _ (by decide)
-  have vk : wfScalarT ok32Current { f := { num := 1, kind := .int32, card := .optional }, jsonNames := [sKey], textNames := [sKey], presence := true } (.num 3) = true := by decide
-  have vv : wfScalarT ok32Current { f := { num := 2, kind := .string, card := .optional }, jsonNames := [sValue], textNames := [sValue], presence := true } (.bytes (ascii ['x'])) = true := by decide
+  have vk : wfScalarT allF32 { f := { num := 1, kind := .int32, card := .optional }, jsonNames := [sKey], textNames := [sKey], presence := true } (.num 3) = true := by decide
+  have vv : wfScalarT allF32 { f := { num := 2, kind := .string, card := .optional }, jsonNames := [sValue], textNames := [sValue], presence := true } (.bytes (ascii ['x'])) = true := by decide
   exact ⟨by decide, rfl, rfl, e0, by decide, ⟨rfl, Or.inr ⟨rfl, by decide, ⟨rfl, rfl, rfl, rfl, vk, vv⟩, trivial⟩⟩, trivial⟩
 
 end C24
